@@ -389,14 +389,12 @@ static size_t want_head(uint8_t* o, unsigned mt, uint64_t v, int force_w /* -1 s
   return 1 + nb;
 }
 
-enum { E_UINT8, E_UINT16, E_UINT32, E_UINT64, E_UINT, E_NEGINT8, E_NEGINT16, E_NEGINT32, E_NEGINT64, E_NEGINT, E_BSTART, E_SSTART, E_ASTART, E_MSTART,
-       E_TAG, E_BOOL, E_NULL, E_UNDEF, E_BREAK, E_CTRL, E_IBSTART, E_ISSTART, E_IASTART, E_IMSTART, E_HALF, E_SINGLE, E_DOUBLE, E_N };
-static const char* const enc_names[E_N] = {"uint8", "uint16", "uint32", "uint64", "uint", "negint8", "negint16", "negint32", "negint64", "negint", "bytestring_start",
+const char* const enc_names[E_N] = {"uint8", "uint16", "uint32", "uint64", "uint", "negint8", "negint16", "negint32", "negint64", "negint", "bytestring_start",
   "string_start", "array_start", "map_start", "tag", "bool", "null", "undef", "break", "ctrl", "indef_bytestring_start", "indef_string_start", "indef_array_start",
   "indef_map_start", "half", "single", "double"};
 static uint64_t enc_hits[E_N];
 
-static size_t call_encoder(int e, uint64_t v, uint8_t* buf, size_t n) {
+size_t vh_call_encoder(int e, uint64_t v, uint8_t* buf, size_t n) {
   switch (e) {
     case E_UINT8: return cbor_encode_uint8((uint8_t)v, buf, n);
     case E_UINT16: return cbor_encode_uint16((uint16_t)v, buf, n);
@@ -479,7 +477,7 @@ static void c10_case(int e, uint64_t v) {
   uint8_t* buf = malloc(wl); /* exactly the expected size: one byte more is a red-zone hit */
   memset(buf, 0xee, wl);
   ta_reset_stats();
-  size_t got = call_encoder(e, v, buf, wl);
+  size_t got = vh_call_encoder(e, v, buf, wl);
   if (TA.requests) vh_violation("allocates", "cbor_encode_%s made %llu allocator requests", enc_names[e], (unsigned long long)TA.requests);
   if (got != wl) vh_violation("length-mismatch", "cbor_encode_%s(%llu) returned %zu into a %zu-byte buffer; the RFC 8949 head is %s", enc_names[e], (unsigned long long)v, got, wl, vh_hex(want, wl, 16));
   else if (memcmp(buf, want, wl)) vh_violation("bytes-mismatch", "cbor_encode_%s(%llu) wrote %s, the RFC 8949 head is %s", enc_names[e], (unsigned long long)v, vh_hex(buf, wl, 16), vh_hex(want, wl, 16));
